@@ -3,6 +3,7 @@ module verifharness
 go 1.23
 
 require (
+	github.com/cockroachdb/pebble v0.0.0-20230104192001-3d9c6101a3a1
 	github.com/jacobsa/fuse v0.0.0-20220531202254-21122235c77a
 	github.com/oneconcern/datamon v0.0.0
 	github.com/segmentio/ksuid v1.0.4
@@ -21,7 +22,6 @@ require (
 	github.com/cespare/xxhash/v2 v2.2.0 // indirect
 	github.com/cockroachdb/errors v1.9.0 // indirect
 	github.com/cockroachdb/logtags v0.0.0-20211118104740-dabe8e521a4f // indirect
-	github.com/cockroachdb/pebble v0.0.0-20230104192001-3d9c6101a3a1 // indirect
 	github.com/cockroachdb/redact v1.1.3 // indirect
 	github.com/dgraph-io/badger/v3 v3.2103.5 // indirect
 	github.com/dgraph-io/ristretto v0.1.1 // indirect
